@@ -147,9 +147,9 @@ def mc_cases(st):
 
 
 def run_harness(mode, cases_path, trace_path, timeout=1800, args=None):
-    with open(cases_path) as fi, open(trace_path, "w") as fo:
+    with open(cases_path) as fi:
         try:
-            r = subprocess.run([HARNESS_BIN, mode] + (args or []), stdin=fi, stdout=fo, timeout=timeout)
+            r = subprocess.run([HARNESS_BIN, mode, trace_path] + (args or []), stdin=fi, stdout=subprocess.DEVNULL, timeout=timeout)
         except subprocess.TimeoutExpired:
             raise ToolError("harness timeout")
     if r.returncode != 0:
